@@ -764,7 +764,7 @@ def split_top(s):
     raise ValueError(s)
 
 
-def m_havoc_modifies(self, st, pre, c, env, nxt0=None, alloc=None):
+def m_havoc_modifies(self, st, pre, c, env, nxt0=None, alloc=None, full=False):
     """Replace every location in c's modifies-footprint (and, if c allocates, every fresh object)
     by an unconstrained value; everything else keeps its pre-state value.  Each changed heap
     component becomes a fresh array constant with a triggered frame axiom (Boogie style):
@@ -780,18 +780,21 @@ def m_havoc_modifies(self, st, pre, c, env, nxt0=None, alloc=None):
 
     def havoc_array(key, cells):
         old = pre.heap[key]
-        if not alloc and len(cells) <= 2:
+        if not (alloc and full) and len(cells) <= 2:
             new = old
             for cz in cells:
                 new = z3.Store(new, cz, z3.Select(fresh('hv', old.sort()), cz))
             st.heap[key] = new
             return
         new = fresh(key.replace('.', '_').replace('#', '_').replace('?', '_set'), old.sort())
-        keep = z3.And([r != cz for cz in cells] + ([r < nxt0] if alloc else []))
+        keep = z3.And([r != cz for cz in cells] + ([r < nxt0] if (alloc and full) else []) + [z3.BoolVal(True)])
         st.assume(safe_forall([r], z3.Implies(keep, z3.Select(new, r) == z3.Select(old, r)),
                               patterns=[z3.Select(new, r)]))
         st.heap[key] = new
 
+    self._havoc_full = full
+    if alloc and full and 'slots' not in fp:
+        fp['slots'] = []
     for key, cells in fp.items():
         if key == 'slots':
             self.havoc_slots(st, pre, cells, alloc, nxt0)
@@ -805,7 +808,11 @@ def m_havoc_modifies(self, st, pre, c, env, nxt0=None, alloc=None):
             havoc_array(key, cells)
             if key + '?' in pre.heap:
                 havoc_array(key + '?', cells)
-    if alloc:
+    # A callee that allocates only bumps `next`: locations at references >= next were never
+    # constrained, so whatever the callee stored there can simply be assumed by its postcondition.
+    # At a loop head (full=True) objects allocated since function entry may have been changed by
+    # earlier iterations, so every component is havoced above the entry allocation mark.
+    if alloc and full:
         done = set(fp.keys())
         for key in list(pre.heap.keys()):
             if key == 'next':
@@ -833,7 +840,7 @@ def m_havoc_slots(self, st, pre, cells, alloc, nxt0):
         new = fresh(comp, old.sort())
         # objects not touched at all keep their whole slot map
         untouched = z3.And([r != o for o in objs] + [r != p[0] for p in partial.values()] +
-                           ([r < nxt0] if alloc else []))
+                           ([r < nxt0] if (alloc and getattr(self, '_havoc_full', False)) else []) + [z3.BoolVal(True)])
         st.assume(safe_forall([r], z3.Implies(untouched, z3.Select(new, r) == z3.Select(old, r)),
                               patterns=[z3.Select(new, r)]))
         # partially modified objects keep the slots outside the footprint
@@ -1017,6 +1024,13 @@ def m_bi_setattr(self, st, pos, kws, k):
     if isinstance(obj, VRef) and isinstance(name, VStr):
         self.slot_set(st, obj.z, name.z, to_val(val))
         return k(st, VNone())
+    if isinstance(obj, VRef) and isinstance(name, VDyn) and getattr(self.cur, 'descriptor_setattr', False):
+        # setattr(packet, <name of a described field>, value): python's descriptor protocol calls
+        # the descriptor's __set__ (assumed dispatch; Auto.__set__ itself is verified)
+        c = self.contracts['role:DESC.__set__']
+        nm = VStr(T.Val.sval(name.z))
+        return self.with_raises(st, [(z3.Not(T.Val.is_VS(name.z)), 'TypeError')],
+                                lambda st: self.call_contract(st, c, [obj, nm, val], {}, None, k))
     raise Untranslated('setattr on %s' % obj.kind)
 
 
@@ -1094,6 +1108,10 @@ def m_bi_list(self, st, pos, kws, k):
         st.heap['llen'] = z3.Store(st.heap['llen'], r, n)
         st.heap['lat'] = z3.Store(st.heap['lat'], r, arr)
         return k(st, VList(r))
+    if isinstance(v, VDyn):
+        lst = VList(T.Val.lval(v.z))
+        return self.with_raises(st, [(z3.Not(T.Val.is_VL(v.z)), 'TypeError')],
+                                lambda st: self.bi_list(st, [lst], kws, k))
     raise Untranslated('list(%s)' % v.kind)
 
 
@@ -1174,6 +1192,9 @@ def m_bi_repr(self, st, pos, kws, k):
 
 
 def m_bi_type(self, st, pos, kws, k):
+    v = pos[0]
+    if isinstance(v, VRef):
+        return k(st, VClassSym(self.class_of(v.z), v.cls))
     return k(st, VStr(fresh('type', T.S)))
 
 
@@ -1225,6 +1246,7 @@ def m_deepcopy_obj(self, st, z):
     st.assume(z3.And(nxt0 <= r, r < n1))
     st.heap['next'] = n1
     res = z3.If(T.Val.is_VL(z), T.Val.VL(r), z3.If(T.Val.is_VR(z), T.Val.VR(r), T.Val.VO(r)))
+    self._deepcopy_src = (z, r, nxt0)
     # fresh region contents are unconstrained except list length/elements equal when copying a list of primitives
     rr = z3.Int('r!h')
     for key in list(st.heap.keys()):
@@ -1233,6 +1255,19 @@ def m_deepcopy_obj(self, st, z):
         old = st.heap[key]
         fr = fresh('hv', old.sort())
         st.heap[key] = z3.Lambda([rr], z3.If(rr < nxt0, z3.Select(old, rr), z3.Select(fr, rr)))
+    # a copied list has the same length; each element is the same primitive or a fresh object
+    j = z3.Int('j!dc')
+    src = T.Val.lval(z)
+    e_old = z3.Select(z3.Select(st.heap['lat'], src), j)
+    e_new = z3.Select(z3.Select(st.heap['lat'], r), j)
+    prim = lambda v: z3.Or(T.Val.is_VI(v), T.Val.is_VB(v), T.Val.is_VN(v), T.Val.is_VBy(v), T.Val.is_VS(v))
+    ref_of = lambda v: z3.If(T.Val.is_VL(v), T.Val.lval(v), z3.If(T.Val.is_VR(v), T.Val.rval(v), T.Val.oval(v)))
+    st.assume(z3.Implies(T.Val.is_VL(z), z3.And(
+        z3.Select(st.heap['llen'], r) == z3.Select(st.heap['llen'], src),
+        safe_forall([j], z3.Implies(z3.And(0 <= j, j < z3.Select(st.heap['llen'], src)),
+                                    z3.If(prim(e_old), e_new == e_old,
+                                          z3.And(z3.Not(prim(e_new)), ref_of(e_new) >= nxt0))),
+                    patterns=[e_new]))))
     return res
 
 
@@ -1293,8 +1328,13 @@ def m_bm_str_upper(self, st, v, pos, kws, k):
 def m_bm_conf_get(self, st, c, pos, kws, k):
     key = pos[0]
     default = pos[1] if len(pos) > 1 else VNone()
-    has = z3.Select(T.Conf.chas(c.z), key.z)
-    return k(st, VDyn(z3.If(has, z3.Select(T.Conf.cval(c.z), key.z), to_val(default))))
+    if isinstance(key, VDyn):       # a key that is not a str is never present
+        kz = T.Val.sval(key.z)
+        has = z3.And(T.Val.is_VS(key.z), z3.Select(T.Conf.chas(c.z), kz))
+    else:
+        kz = key.z
+        has = z3.Select(T.Conf.chas(c.z), kz)
+    return k(st, VDyn(z3.If(has, z3.Select(T.Conf.cval(c.z), kz), to_val(default))))
 
 
 def m_bm_bytes_find(self, st, b, pos, kws, k):
@@ -1474,8 +1514,9 @@ def m_cb_apply(self, st, fnid, shape, args):
 
 
 def m_call_cb(self, st, fnid, pos, kws, kwstar, k):
-    if pos:
-        raise Untranslated('user callback with positional arguments')
+    kws = dict(kws)
+    for i, v in enumerate(pos):     # positional arguments are named p0, p1, ...
+        kws['p%d' % i] = v
     names = sorted(kws.keys())
     args = []
     shape = []
@@ -1904,7 +1945,7 @@ def m_loop_head(self, st, idx, spec, assigned, itname):
     # havoc heap within the function's frame
     # everything allocated since function entry is local to this activation and may change too
     self.havoc_modifies(st, entry, self.loop_frame_contract, self.fn_env,
-                        nxt0=self.fn_pre.heap['next'], alloc=True)
+                        nxt0=self.fn_pre.heap['next'], alloc=True, full=True)
     it = fresh('it', T.I)
     st.assume(it >= 0)
     for j, inv in enumerate(spec.invariants):
@@ -2247,13 +2288,22 @@ def m_clause_obligation(self, st, c, kind, label, g, text, env, pre):
 def m_end_raise(self, st, c, env, pre, exc):
     self.paths_ended.append(('raise:' + exc.cls, list(st.path)))
     allowed = None
+    unknown = ('Exception*', 'OtherException*')
+    # most specific clause first: exact class, then a declared superclass, then the wildcards
     for cls in c.raises:
-        unknown = ('Exception*', 'OtherException*')
-        if cls == exc.cls or (cls not in unknown and exc.cls not in unknown and exc_le(exc.cls, cls)) \
-                or cls == 'Exception*' or (cls == 'OtherException*' and exc.cls != 'PacketError'
-                                           and exc.cls != 'Exception*'):
+        if cls == exc.cls:
             allowed = cls
             break
+    if allowed is None:
+        for cls in c.raises:
+            if cls not in unknown and exc.cls not in unknown and exc_le(exc.cls, cls):
+                allowed = cls
+                break
+    if allowed is None:
+        for cls in c.raises:
+            if cls == 'Exception*' or (cls == 'OtherException*' and exc.cls not in ('PacketError', 'Exception*')):
+                allowed = cls
+                break
     if allowed is None:
         envn = dict(env)
         envn.update({g: v for g, v in st.ghost.items() if isinstance(v, V)})
